@@ -41,6 +41,20 @@ PROPS = {
         "trusted_base": [],
         "assumptions": ["a handle that has been invalidated (directly or by losing every justification) is not used as a premise of a later insertion (the property's quantifier); later ops of such histories are compared model-vs-code only"],
     },
+    "C10": {
+        "num": 10,
+        "vo": ["Properties/C10.vo"],
+        "rule": "store part: exhaustive all sequences of length<=5 (quick; <=6 thorough) over a 10-op alphabet (begin, commit, rollback, set/remove on 2 keys, "
+                "object set, two set_nested) from two initial stores (sequences of length>=4 start with begin), plus random sequences of 2..10 ops over 3 keys with "
+                "int/object values; non-trivial = at least one effective rollback (label not 'trivial'); nested+commit = a commit with >=2 open frames",
+        "level_text": "Theorem for every initial store and every operation sequence (unbounded length, nesting and keys): the per-key undo log of Facts is observationally "
+                "equal to a stack of whole-store snapshots (values and fact types of every key, result codes), proved by a simulation invariant; corollary: rollback restores the "
+                "store of the matching begin across arbitrary nested begin/commit/rollback. The model is tied to facts.rs by per-op differential comparison and the Coq monitor runs on the implementation's observations.",
+        "level_note": "Trusted: Coq kernel; model of facts.rs after fix c0a4186 (values restricted to integers and one-level objects; paths k and k.f); harness; extraction. "
+                "The query half of C10 (a failed backward-chaining query leaves the facts untouched) is checked by the C09 harness suite when present. Axioms: none.",
+        "trusted_base": [],
+        "assumptions": ["add_value/clear/merge/restore bypass the undo log and are outside the property's operation set (add_value is used only to build the initial store)"],
+    },
     "C13": {
         "num": 13,
         "vo": ["Properties/C13.vo"],
